@@ -121,10 +121,21 @@ def check_lookup_history(res, events, expected, label, enclosing=None, arity=Non
             res.violation('c08-enclosing-paths', f'{label}: {enclosing} shows {shown}, lookups were {paths}',
                           case_of(events))
             return
-        if arity is not None and len(paths) == arity and shown != [p for p in paths if p != '']:
-            res.violation('c08-enclosing-paths', f'{label}: {enclosing} (arity {arity}) shows {shown}, lookups were {paths}',
-                          case_of(events))
-            return
+        if arity is not None:
+            # "in lookup order": a call with k path arguments shows the first k lookups of its window.  Two decoders document
+            # another choice (posix_spawn looks up its three standard streams before the executable when it sets them up;
+            # symlinkat's link path is resolved last) - that is the only per-decoder knowledge used here.
+            n = len(paths)
+            if enclosing == 'BSC_posix_spawn':
+                want = [paths[3]] if n >= 6 else paths[:1]
+            elif enclosing == 'BSC_symlinkat':
+                want = paths[:1] if n < 2 else [paths[0], paths[-1]]
+            else:
+                want = paths[:arity]
+            if shown != [p for p in want if p != '']:
+                res.violation('c08-enclosing-paths', f'{label}: {enclosing} ({arity} path argument(s), {n} lookups) shows {shown}, '
+                              f'expected {want} of the lookups {paths}', case_of(events))
+                return
         res.count('enclosing_calls_compared')
 
 
@@ -179,7 +190,7 @@ def lookup_workload(res, ctx, rng, arities):
             # (b) inside path-taking syscalls (rotating over all discovered decoders), (d) 1..6 lookups
             for rep in range(ctx.pick(2, 40)):
                 name = names[(L * 3 + rep + (0 if cls == 'ascii' else 1)) % len(names)]
-                n = rng.choice((1, 1, 2, 2, 3, 6))
+                n = rng.choice((1, 1, 2, 2, 3, 4, 5, 6, 7))
                 texts = [text] + [ascii_text(rng.randrange(0, 185), s + 2) if rng.random() < 0.7 else
                                   straddling_text(rng.randrange(0, 185), 24, s) for s in range(n - 1)]
                 rng.shuffle(texts)
